@@ -245,7 +245,7 @@ func (b *Reader) UnreadByte() error {
 
 		return nil
 	}
-	if b.r <= 0 {
+	if b.lastByte < 0 || b.r <= 0 {
 		return ErrInvalidUnreadByte
 	}
 	b.r--
@@ -316,6 +316,20 @@ func (b *Reader) Buffered() int { return b.w - b.r }
 // ReadBytes or ReadString instead.
 // ReadSlice returns err != nil if and only if line does not end in delim.
 func (b *Reader) ReadSlice(delim byte) (line []byte, err error) {
+	line, err = b.readSlice(delim)
+
+	// Handle last byte, if any.
+	if i := len(line) - 1; i >= 0 {
+		b.lastByte = int(line[i])
+		b.lastRuneSize = -1
+	}
+
+	return line, err
+}
+
+// readSlice does the work of ReadSlice; it leaves lastByte and
+// lastRuneSize for ReadSlice to update.
+func (b *Reader) readSlice(delim byte) (line []byte, err error) {
 	// Look in buffer.
 	if i := bytes.IndexByte(b.buf[b.r:b.w], delim); i >= 0 {
 		line1 := b.buf[b.r : b.r+i+1]
@@ -472,6 +486,9 @@ func (b *Reader) ReadString(delim byte) (line string, err error) {
 
 // WriteTo implements io.WriterTo.
 func (b *Reader) WriteTo(w io.Writer) (n int64, err error) {
+	b.lastByte = -1
+	b.lastRuneSize = -1
+
 	n, err = b.writeBuf(w)
 	if err != nil {
 		return
